@@ -82,7 +82,7 @@ func runC11(c *core.Ctx) {
 		nframes = 33000
 	}
 	var frames [][]byte
-	var cur []byte      // reassembly of the frame in progress
+	var cur []byte // reassembly of the frame in progress
 	curFrame, running := -1, 0
 	fragmented, formChange := false, false
 	c.Logf("config=%s picid=%v mtu=%d frames=%d", c.Config, picID, mtu, nframes)
